@@ -61,7 +61,11 @@ func (m ViewMap) GetWithInternalId(ctx context.Context, identifier string, flags
 	if view, ok := m.Load(identifier); ok {
 		ret := view.Copy()
 
-		ret.Header = NewHeaderWithId(ret.Header[0].View, []string{}).Merge(ret.Header)
+		viewName := ""
+		if 0 < len(ret.Header) {
+			viewName = ret.Header[0].View
+		}
+		ret.Header = NewHeaderWithId(viewName, []string{}).Merge(ret.Header)
 
 		if err := NewGoroutineTaskManager(ret.RecordLen(), -1, flags.CPU).Run(ctx, func(index int) error {
 			record := make(Record, len(ret.RecordSet[index])+1)
